@@ -1,6 +1,6 @@
 (* C05 -- The partition log recovers from a crash at any instant. *)
 From LB Require Import Base.Prelude Log.Model Log.Retention Log.Compact Codec.Message Log.Proofs Log.Disk Log.DiskBase Log.DiskProofs
-  Log.DiskBlocks Log.DiskTrunc Log.DiskClean Log.DiskCleanOp Log.DiskSafety Log.DiskRefute.
+  Log.DiskBlocks Log.DiskTrunc Log.DiskClean Log.DiskCleanOp Log.DiskSafety Log.DiskTear Log.DiskTorn Log.DiskRefute.
 Open Scope Z_scope.
 
 (* The crash model (Log.Disk): the directory of a partition (segment logs and indexes, the
@@ -113,3 +113,49 @@ Theorem C05_pinned_stale_replacement_refuted :
   offsets_of (run key_of (mkV true true false) P1000 [HDo (DAppend [msg1 1; msg1 1; msg1 1]); HCrash (DTrunc 2) 8; HDo (DTrunc 2)]) = [0; 1; 0; 1].
 Proof. exact stale_replacement_duplicates. Qed.
 Print Assumptions C05_pinned_stale_replacement_refuted.
+
+(* ---- a crash INSIDE a write (Log.DiskTear Log.DiskTorn) ----
+   The unit of atomicity above is one file-system effect. A killed process can also leave a short
+   write(2) of a batch (some whole frames and j bytes of the next) or a partly stored run of index
+   entries (some whole entries and a visible part of the next whose position+size fields read q).
+   For every operation, every effect of it that appends, every number k of whole frames/entries that
+   arrived and every such remainder: commitlog.New succeeds (the junk is always detected by
+   indexCoversLog and cut off by rebuildIndex -- `crash_torn` would answer None otherwise) and the
+   recovered log is good, holds no phantom, and has lost nothing but what was being removed. *)
+Theorem C05_torn_write_safe : forall key_of p, 0 < p_maxb p -> forall s o n k z e d, Good s -> op_ok s o ->
+  torn_image key_of fixed p s o n k = Some (e, d) -> tear_ok d e k z ->
+  exists s', crash_torn key_of fixed p s o n k z = Some s' /\
+    Good s' /\ s_hw s' <= s_hw s /\
+    (forall x, In x (content (s_disk s')) -> In x (content (s_disk s)) \/ In x (incoming s o)) /\
+    (forall x, In x (content (s_disk s)) -> survives key_of p s o x -> In x (content (s_disk s'))).
+Proof. exact torn_safe. Qed.
+Print Assumptions C05_torn_write_safe.
+
+(* histories of completed operations, crashes between effects and crashes inside writes *)
+Theorem C05_torn_histories : forall key_of p, 0 < p_maxb p -> forall ts s, Good s -> thist_ok key_of p s ts ->
+  exists s', fold_left (tstep_run key_of p) ts (Some s) = Some s' /\ Good s'.
+Proof. exact thistory_safe. Qed.
+Print Assumptions C05_torn_histories.
+
+Theorem C05_torn_premises_satisfiable : exists s0, init key_of fixed P1000 = Some s0 /\
+  thist_ok key_of P1000 s0 (torn_history 1 5) /\ thist_ok key_of P1000 s0 (torn_history 3 41).
+Proof. exact torn_history_ok. Qed.
+Print Assumptions C05_torn_premises_satisfiable.
+
+Theorem C05_torn_examples :
+  offsets_of (fold_left (tstep_run key_of P1000) (torn_history 1 5) (init key_of fixed P1000)) = [0; 1; 2] /\
+  offsets_of (fold_left (tstep_run key_of P1000) (torn_history 3 41) (init key_of fixed P1000)) = [0; 1; 2; 3].
+Proof. exact torn_histories_fine. Qed.
+Print Assumptions C05_torn_examples.
+
+(* the pinned commit (no index rebuild) keeps the junk of a torn write in the log file *)
+Theorem C05_pinned_torn_write_refuted :
+  match init key_of (mkV false true true) P1000 with
+  | Some s0 => match exec key_of (mkV false true true) P1000 s0 (DAppend [msg1 1]) with
+               | Some s1 => crash_torn key_of (mkV false true true) P1000 s1 (DAppend [msg1 1; msg1 1]) 1 1 (Some 5)
+               | None => None
+               end
+  | None => None
+  end = None.
+Proof. exact torn_no_rebuild_stuck. Qed.
+Print Assumptions C05_pinned_torn_write_refuted.
